@@ -6,10 +6,11 @@ PROP_FILES = ["Counter/Properties_C02.v"]
 MANIFEST = dict(
     technique="Coq proof: simulation between the tool's line state machine and a piece grammar with classes known by construction (scanner lemmas over string-literal segments, block-comment lemmas, directive lemmas, induction over the program), on the Gallina port of sloc.rs+comment.rs; tie = differential run of the extracted model plus grammar-generated programs judged against their constructed truth on SlocCounter itself",
     text="C02_ground_truth / C02_counts: for every syntax with well-formed markers (all built-ins, recomputed from the crate's registry on every run) and every program assembled from valid pieces (blank, pure line comment with arbitrary text, code with string literals of arbitrary content, code + line comment with arbitrary text, single- and multi-line block comments of non-nesting static or line-start syntaxes, ignore-next N and ignore-start/end regions over whole pieces) every line gets the class it has by construction and the five counters are the tally; named sub-theorems for strings, trailing comments, block interior/closer, the three directives and directive text in code. The unchanged tree violates the full statement on four classes (quote before a block closer, closer overlapping the opener, Python multi-line docstrings, triple quote inside an ordinary string): each has a refutation witness proved by vm_compute and is a KNOWN-FINDING; the grammar's side conditions are exactly the complement of those classes. Nesting block comments (depth returns to zero exactly at the matching closer), Lua long-bracket openers (level n selects closer n) and one-line triple-quote blocks have line-level theorems of their own (C02_nested_*, C02_lua_block_open, C02_selfclosing_block_line); they are not constructors of the whole-program grammar, so programs containing them are covered end-to-end by the correspondence run.",
-    note="Trusted: Coq kernel, extraction, harness sgv-counter; the piece grammar is the definition of lexical truth (char literals holding a quote, template strings, heredocs are outside it). D1/D3 were repaired (fix d23d81a); D2, D26, D4, D27 are listed in known_findings/C02.json.",
+    note="Trusted: Coq kernel, extraction, harness sgv-counter; the piece grammar is the definition of lexical truth (char literals holding a quote, template strings, heredocs are outside it). D1/D3 were repaired (fix d23d81a); D2, D26, D4, D27, D45, D46 are listed in known_findings/C02.json.",
     ref="5 (C02)")
 
-KNOWN = ["K02_quote_in_block", "K02_closer_overlaps_opener", "K02_py_multiline_docstring", "K02_py_triple_in_string"]
+KNOWN = ["K02_quote_in_block", "K02_closer_overlaps_opener", "K02_py_multiline_docstring", "K02_py_triple_in_string",
+         "K02_nested_opener_in_tail_comment", "K02_linestart_closer_midline"]
 
 
 def src(L):
